@@ -34,6 +34,7 @@ static GLOBAL: alloc::Counting = alloc::Counting;
 
 thread_local! {
     pub static PANIC_INFO: RefCell<Option<String>> = RefCell::new(None);
+    pub static IN_GUARD: std::cell::Cell<u32> = std::cell::Cell::new(0);
 }
 
 /// Coverage accounting: what the monitors actually observed.
@@ -279,7 +280,14 @@ pub fn run_cases(a: &Args, rep: &mut Reporter, mut f: impl FnMut(u64, u64, &mut 
         }
         let cs = rng::mix(&[a.seed, wl, idx]);
         rep.journal(idx, "");
+        let t = Instant::now();
         f(idx, cs, rep);
+        let el = t.elapsed().as_secs_f64();
+        if el > 2.0 {
+            rep.emit(J::obj().set("t", J::s("slow")).set("case", J::i(idx as i128)).set("secs", J::Num(el)));
+            rep.stat("slow_cases_over_2s", 1);
+        }
+        rep.stat_max("max_case_millis", (el * 1000.0) as u64);
         done += 1;
         k += 1;
     }
@@ -297,6 +305,9 @@ fn install_panic_hook() {
             "non-string panic".to_string()
         };
         let crate_hint = info.location().map(|l| if l.file().contains("/repo/") || l.file().starts_with("src/") { "e57" } else if l.file().contains("harness") { "harness" } else { "dep" }).unwrap_or("?");
+        if IN_GUARD.with(|g| g.get()) == 0 {
+            eprintln!("HARNESS PANIC outside a guarded call: {}@{} {}", crate_hint, loc, msg);
+        }
         PANIC_INFO.with(|p| *p.borrow_mut() = Some(format!("{}@{} {}", crate_hint, loc, msg)));
     }));
 }
